@@ -177,6 +177,13 @@ func init() {
 		l3Unit("scalars", map[string]int{"KINDS": 15, "DEPTH": 0, "NUMSHAPES": 2, "STRSHAPES": 2}, "C04.", "required/optional x nullable x inline/$ref for scalar properties"),
 		l3Unit("maps-enums-formats", l3Enums, "C04.", "required/optional typed maps, enums, untyped and format-typed properties"),
 		l3Unit("nested-objects", l3Objects, "C04.", "required members of a nested object (which is itself required or optional)"),
+		Unit{Name: "allOf/required-of-every-branch", Harness: "pkg/generator:HarnessC11", Layer: "L3", Only: "C04.",
+			Desc:   "allOf of two object branches (inline or $ref, every order) over the property names {a, b}, and allOf whose branches all declare the same object-valued property o with their own required member: a key required by any branch, at the top or inside o, must be present (documents valid in every other respect)",
+			Bounds: "B=2 branches; regions of the recorded finding allOf-same-keyword-first-branch-wins are excluded",
+			Quick:  map[string]int{"REF": 1, "NAMES": 2, "CONSTR": 1, "B": 2}, Panic: "inconclusive"},
+		Unit{Name: "allOf/required-inside-an-object-declared-by-every-branch", Harness: "pkg/generator:HarnessC11", Layer: "L3", Only: "C04.",
+			Desc:   "same, every branch declares the object-valued property o and adds a required or optional member to it",
+			Bounds: "B=2 branches", Quick: map[string]int{"REF": 1, "NESTED": 1, "B": 2}, Panic: "inconclusive"},
 		Unit{Name: "required-through-allOf-ref-across-documents", Harness: "pkg/generator:HarnessC20", Layer: "L3", Only: "C04.",
 			Desc:   "two documents in one run, each with its own definition named Base (different required lists) behind the same reference string inside allOf: the type composed in money.json rejects a symbolic document that omits the key ITS Base requires, in every package layout and argument order",
 			Bounds: "two files, three package layouts, both argument orders", Panic: "inconclusive"})
@@ -240,15 +247,25 @@ func init() {
 			Panic:  "inconclusive"},
 	}, Assumptions: []string{"for type-correct documents yaml.v3's Decode and encoding/json's Unmarshal fill Go values identically (binding by the yaml / json tag of the default tag set)"}})
 	reg(&Property{ID: "C11", Units: []Unit{
-		{Name: "allOf-anyOf/inline-branches", Harness: "pkg/generator:HarnessC11", Layer: "L3",
+		{Name: "allOf-anyOf/inline-branches", Harness: "pkg/generator:HarnessC11", Layer: "L3", Only: "C11.",
 			Desc:   "whole generator (resolveRefs, schemas.AllOf/AnyOf with the mergo model, generateAnyOfType/generateAllOfType, anyOfValidator) on a required property x = allOf/anyOf of two object branches over the property names {a, b}: each branch declares a subset, requires some, and puts a symbolic minLength or maxLength on each; emitted code on a symbolic type-correct document: allOf accepted iff every branch's reference model accepts, anyOf iff at least one does",
 			Bounds: "B=2 branches, property sets {a} / {a,b}, one symbolic string-length keyword (or none) per property, documents with a, b absent or strings; mergo is a hand model of deepMerge for the option set the repository uses (validated by native replay)",
 			Quick:  map[string]int{"REF": 0, "NAMES": 2, "CONSTR2": 1, "B": 2}, Thor: map[string]int{"REF": 0, "NAMES": 3, "B": 2},
 			Panic:  "inconclusive"},
-		{Name: "allOf-anyOf/ref-branches", Harness: "pkg/generator:HarnessC11", Layer: "L3",
+		{Name: "allOf-anyOf/ref-branches", Harness: "pkg/generator:HarnessC11", Layer: "L3", Only: "C11.",
 			Desc:   "same with both branches given by $ref to definitions",
 			Bounds: "as above, two constraint choices per property",
 			Quick:  map[string]int{"REF": 2, "NAMES": 1, "CONSTR": 3, "B": 2}, Thor: map[string]int{"REF": 1, "NAMES": 2, "CONSTR": 2, "B": 2},
+			Panic:  "inconclusive"},
+		{Name: "allOf-anyOf/mixed-branches", Harness: "pkg/generator:HarnessC11", Layer: "L3", Only: "C11.",
+			Desc:   "same with every branch independently inline or a $ref (all four orders: inline/inline, inline/$ref, $ref/inline, $ref/$ref)",
+			Bounds: "as above, property sets {a} / {a,b}, two constraint choices on a",
+			Quick:  map[string]int{"REF": 1, "NAMES": 2, "CONSTR": 2, "CONSTR2": 1, "B": 2}, Thor: map[string]int{"REF": 1, "NAMES": 3, "CONSTR": 3, "B": 3},
+			Panic:  "inconclusive"},
+		{Name: "allOf-anyOf/same-object-property-in-every-branch", Harness: "pkg/generator:HarnessC11", Layer: "L3", Only: "C11.",
+			Desc:   "every branch declares the same object-valued property o and contributes its own (required or optional) member to it: the nested object schemas are merged as well (conjunction at depth 2)",
+			Bounds: "B=2 branches (3 thorough), inline or $ref, one string member per branch",
+			Quick:  map[string]int{"REF": 1, "NESTED": 1, "B": 2}, Thor: map[string]int{"REF": 1, "NESTED": 1, "B": 3},
 			Panic:  "inconclusive"},
 	}, Assumptions: []string{"dario.cat/mergo v1.0.1 Merge behaves as the engine's model of deepMerge (Overwrite=false, AppendSlice, TypeList transformer, optional WithoutDereference); primitive-typed branches, oneOf/not and more than two branches are outside the bound"}})
 	reg(&Property{ID: "C18", Units: []Unit{
